@@ -215,6 +215,44 @@ def precompileGas (addr : Nat) (input : BA) : Nat :=
 
 def isPrecompile (addr : Nat) : Bool := decide (1 ≤ addr ∧ addr ≤ 18)
 
+/-- the input-length gate at the top of each precompile's `Run` (contracts.go): `false` means
+    `Run` returns an input-length error before touching the input -/
+def precompileLenOk (addr : Nat) (n : Nat) : Bool :=
+  match addr with
+  | 8 => n % 192 == 0
+  | 9 => n == 213
+  | 10 => n == 256
+  | 11 => n == 160
+  | 12 => n != 0 && n % 160 == 0
+  | 13 => n == 512
+  | 14 => n == 288
+  | 15 => n != 0 && n % 288 == 0
+  | 16 => n != 0 && n % 384 == 0
+  | 17 => n == 64
+  | 18 => n == 128
+  | _ => true
+
+/-- `bigModExp.Run`: the three operand lengths are the header words **truncated to 64 bits**
+    (`new(big.Int).SetBytes(…).Uint64()`), whereas `RequiredGas` priced the untruncated words;
+    `Run` allocates `getData(input, …, len)` buffers of these sizes (RightPadBytes) and the
+    `modLen`-byte left-padded result. Zero when base and modulus lengths are both zero. -/
+def modExpRunAlloc (input : BA) : Nat :=
+  let b64 := beNat (getData input 0 32) % 2 ^ 64
+  let e64 := beNat (getData input 32 32) % 2 ^ 64
+  let m64 := beNat (getData input 64 32) % 2 ^ 64
+  if b64 = 0 ∧ m64 = 0 then 0 else b64 + e64 + m64 + m64
+
+/-- bytes `Run` allocates whose amount is dictated by the *content* of the input rather than
+    by its length (fixed-size paddings of ecrecover / bn256, the modexp operand buffers) -/
+def precompileRunAlloc (addr : Nat) (input : BA) : Nat :=
+  match addr with
+  | 1 => 128 + 65 + 32
+  | 5 => modExpRunAlloc input
+  | 6 => 64 + 64 + 64
+  | 7 => 64 + 32 + 64
+  | 9 => 64
+  | _ => 0
+
 /-! ## results -/
 
 /-- result of `EVMInterpreter.Run` plus the gas left in the contract -/
@@ -643,6 +681,8 @@ def runPrecompile (addr : Nat) (input : BA) (gas : Nat) (g : Global) : CallRes :
   | none => ⟨#[], 0, some (.desync ("pc:" ++ hexAddr addr ++ ":" ++ hexBA input)), g, 0⟩
   | some (a, g') =>
     if a.startsWith "ok:" then
+      -- a `Run` that succeeded passed its input-length gate
+      if ¬ precompileLenOk addr input.size then ⟨#[], 0, some (.desync "pc-length-gate"), g', 0⟩ else
       match unhex? (String.ofList (a.toList.drop 3)) with
       | some out => ⟨out, gas - cost, none, g', 0⟩
       | none => ⟨#[], 0, some (.desync "pc-answer"), g', 0⟩
